@@ -153,6 +153,8 @@ class Prop(BaseProp):
         runs.append(dict(good[0], interval=("-1", "1")))
         runs.append(dict(good[0], interval=("2", "2")))
         runs.append(dict(good[0], interval=("5", "3")))
+        runs.append(dict(good[1], interval=("2", "2"), paranoia=True))            # nothing to show must not become "show the default wallet"
+        runs.append(dict(good[2], interval=("9", "4"), paranoia=True, account="3", file="new"))
         runs.append(dict(good[0], account=str(H - 1), interval=("0", "1")))
         runs.append(dict(good[0], account=str(H - 2), interval=("0", "1")))
         runs.append(dict(good[0], account="-1", interval=("0", "1")))
